@@ -85,7 +85,8 @@ class C26(core.Check):
     def _gen_call(self, rng, ntags, nffi, p_raise, p_nest, mintag):
         tag = rng.randint(mintag, ntags - 1)
         call = dict(ffi=rng.below(nffi), tag=tag, points=rng.randint(0, 4),
-                    end='raise' if rng.chance(p_raise) else 'ok', nest=None)
+                    end='raise' if rng.chance(p_raise) else rng.weighted([('ok', 8), ('none', 1), ('false', 1),
+                                                                          ('tuple', 1)]), nest=None)
         if tag + 1 <= ntags - 1 and rng.chance(p_nest):
             call['nest'] = self._gen_call(rng, ntags, nffi, p_raise, 0.0, tag + 1)
         return call
@@ -161,7 +162,14 @@ class C26(core.Check):
                     state['exc'] = e
                     events.append(('f_raise', cid, key, c.id))
                     raise e
-                o = Sentinel(cid)
+                if call['end'] == 'none':
+                    o = None                       # results that look like "nothing" or like a cache entry
+                elif call['end'] == 'false':
+                    o = False
+                elif call['end'] == 'tuple':
+                    o = (False, Sentinel(cid))
+                else:
+                    o = Sentinel(cid)
                 state['obj'] = o
                 events.append(('f_ok', cid, key, c.id, o))
                 return o
